@@ -196,6 +196,7 @@ class Sim:
 
         def _res(msg):
             doing0 = {t: set(n.get('doing')) for t, n in sim.nodes().items()}
+            sim.cur_rel = None
             for m in sim.monitors:
                 m.before_res(sim, msg)
             try:
@@ -347,11 +348,25 @@ class Sim:
     # -- events -----------------------------------------------------------------------
     def apply(self, ev):
         self.events.append(ev)
+        for m in self.monitors:
+            m.before_event(self, ev)
         getattr(self, 'ev_' + ev['op'])(ev)
+        self.background()
         self.pump()
         self._sync_queued()
         for m in self.monitors:
             m.after_event(self, ev)
+
+    def background(self):
+        '''background steps (idle archive ...) run to completion right away,
+        as their threads would within moments'''
+        rx = self.world.reactor
+        guard = 0
+        while rx.parked and guard < 20:
+            p = rx.parked.pop(0)
+            self.log.append(['background', p.name])
+            p.complete()
+            guard += 1
 
     def _sync_queued(self):
         # units whose task message sits in the farm queues
@@ -555,6 +570,9 @@ class Monitor:
         pass
 
     def after_event(self, sim, ev):
+        pass
+
+    def before_event(self, sim, ev):
         pass
 
     def finish(self, sim, res, shape):
